@@ -2,7 +2,7 @@
    which the faithful model of ttconv.vtt.reader contradicts S: `judge f (print_file f) (to_model (print_file f))`
    lists the failed clause (2 exception, 20 region, 30 styled/timed text runs) together with the finding whose
    trigger covers the cue.  One finding is left (7 ruby-structure); the others were repaired in the code and their
-   refuted theorems deleted (they no longer hold of the model).  The check re-runs the same inputs against the real code (harness/witnesses_c11.py).
+   refuted theorems deleted (they no longer hold of the model); since 2ddde69 unmatched end tags and an omitted last </rt> are read as WebVTT says (Properties C11_example_unmatched_judged).  The check re-runs the same inputs against the real code (harness/witnesses_c11.py).
    If this file stops compiling a finding is stale, which the check reports as such (it is not a violation). *)
 From Coq Require Import QArith.
 From TT Require Import Base.Prelude Model.VttTokenizer Model.VttReader Spec.VttSpec Model.VttCases.
@@ -26,5 +26,13 @@ Definition w_ruby_base_timestamp : vfile :=
 Theorem C11_ruby_base_timestamp_refuted : contradicts w_ruby_base_timestamp 30 7.
 Proof. witness. Qed.
 
+(* an ignored end tag inside a ruby base does the same: <ruby>a</x>b<rt>c</rt></ruby> reads as a, c, b (WebVTT ignores
+   </x>, the base is "ab") *)
+Definition w_ruby_base_end_tag : vfile :=
+  mkFile [] [BCue (mkCue None (mkTs None 0 1 0) (mkTs None 0 9 0) []
+                         [CRuby [([CText [97]; CEnd [120]; CText [98]], [CText [99]])]])].
+Theorem C11_ruby_base_end_tag_refuted : contradicts w_ruby_base_end_tag 30 7.
+Proof. witness. Qed.
 Print Assumptions C11_ruby_structure_refuted.
+Print Assumptions C11_ruby_base_end_tag_refuted.
 Print Assumptions C11_ruby_base_timestamp_refuted.
